@@ -31,6 +31,7 @@ import PyhamModel.Lemmas.Annotations
 import PyhamModel.Lemmas.Capstone
 import PyhamModel.Lemmas.CapstoneWF
 import PyhamModel.Lemmas.Clustering
+import PyhamModel.Lemmas.NewickLemmas
 namespace Pyham.Props
 open Pyham
 
@@ -417,6 +418,17 @@ theorem C18_names (T : STree) : T.leafNames = (T.leafTaxa).filterMap (fun p => (
 theorem C18_duplicate_leaf_names_rejected (T : STree) (nm : Naming)
     (h : ¬ (T.leafTaxa.filterMap (T.nameAt nm)).Nodup) : taxonomyBuild T nm = .error .key :=
   Pyham.C15_ambiguous_rejected T nm (Or.inl h)
+
+/-- the stored Newick text re-parses to the same named topology, polytomies included: for every tree
+    (any arity and shape) whose names -- the tree's own or the synthesised ones -- contain none of
+    `( ) , ;` (in particular names over letters, digits, space, `_ - . /`), reading what the taxonomy wrote
+    gives back the named tree (for the model's writer / reader pair) -/
+theorem C18_newick_roundtrip (nm : Naming) (T : STree) (hc : (STree.named nm T).namesClean = true) :
+    parseNewick (T.newick nm) = some (STree.named nm T) :=
+  Pyham.C18_newick_roundtrip nm T hc
+
+theorem C18_alphabet_clean (c : Char) (h : c.isAlphanum = true ∨ c = ' ' ∨ c = '_' ∨ c = '-' ∨ c = '.' ∨ c = '/') :
+    isNameChar c = true := alphabet_clean c h
 
 /-! ## C19 — annotations stay attached to the object they annotate -/
 
